@@ -1464,7 +1464,7 @@ Proof.
       apply index_of_nth in Hr. apply index_of_nth in Hr'. congruence.
 Qed.
 
-(* the code before repair 3c7e4a0 abstracted the free names as well: f calls len, g calls sum *)
+(* the code before repair 45d5772 abstracted the free names as well: f calls len, g calls sum *)
 Theorem duplicate_old_refuted :
   exists f g, dup_eqb_old [] f g = true /\ dup_eqb [] f g = false /\
               exists i x y, nth_error f i = Some (TN x false) /\ nth_error g i = Some (TN y false) /\ x <> y
